@@ -142,6 +142,18 @@ CHECKS = {
         note="Shape-bounded (n <= 5, thorough 6); numpy array primitives executed by real numpy on object arrays; sympy trusted; real "
              "thickness models other than zero are arbitrary functions here.",
         technique="symbolic execution of the real recurrences + z3; sympy for the Kelvin equations"),
+    'C17': dict(
+        category='other',
+        text="Contract-level obligations (discharged): the slit-pore potential closure built inside psd_horvath_kawazoe is captured and "
+             "proved equal to the published Horvath-Kawazoe equation for all widths and parameters (sympy polynomial normal form after "
+             "literal lifting); the objective handed to minimize_scalar is proved to be (exp(phi(L)) [Cheng-Yang corrected] - p)^2 on "
+             "(minimum width, 50); dispersion constants equal the Kirkwood-Mueller formulas; cumulative volume, finite-difference "
+             "distribution and pairwise-averaged widths of the tail. Bounded (not counted as proved): published-equation round trip for "
+             "slit widths through the real minimiser, monotonic widths and tail identities for the 4 models x 3 geometries.",
+        design_ref='§3 C17',
+        note="Cylinder/sphere/Rege-Yang potentials use int() and 2000-term series on the width and are outside the symbolic engine; "
+             "minimiser convergence is assumed at contract level and only sampled in the bounded part.",
+        technique="sympy polynomial identity on the captured closure + symbolic execution of the solver wrappers; bounded runs of the real code"),
 }
 
 NOT_YET = {
